@@ -110,6 +110,7 @@ fn main() {
         return;
     }
     util::install_panic_hook();
+    util::watchdog::start(opts.out.clone(), engine.clone());
     let run = match engines::dispatch(&engine, &opts) {
         Some(r) => r,
         None => {
